@@ -237,18 +237,23 @@ Ramp(t, tmin, tmax, ini, fin) == IF t < tmin THEN ini
 \* public attribute, and editing it in place between two calls is an environment move (Retune)
 KwSeq == <<1 * Q, (-1) * Q, (-2) * Q>>
 KwVals == {KwSeq[n] : n \in 1..Len(KwSeq)}
-LeafValC(k, p, t, c) ==
-  CASE k = "P2" -> Pts[PtOf(p)].x + 2 * Pts[PtOf(p)].y - 2 * Q
-    [] k = "P3" -> Pts[PtOf(p)].x - Pts[PtOf(p)].y + Pts[PtOf(p)].z + Q
-    [] k = "PT" -> Pts[PtOf(p)].x + Pts[PtOf(p)].y + 2 * Pts[PtOf(p)].z - c + t
+\* the keyword arguments of the STATIC leaves are public and editable in the same way (RetuneS): s = the keyword b of
+\* P3 / P3b (1 as built) and half the keyword a of P2 / P2b (2 as built).  kw = [c, s]: the keyword values an evaluation sees
+KW(c, s) == [c |-> c, s |-> s]
+KW0 == KW(Q, Q)
+StaticKinds == {"P2", "P2b", "P3", "P3b"}
+LeafValC(k, p, t, kw) ==
+  CASE k = "P2" -> Pts[PtOf(p)].x + 2 * Pts[PtOf(p)].y - 2 * kw.s
+    [] k = "P3" -> Pts[PtOf(p)].x - Pts[PtOf(p)].y + Pts[PtOf(p)].z + kw.s
+    [] k = "PT" -> Pts[PtOf(p)].x + Pts[PtOf(p)].y + 2 * Pts[PtOf(p)].z - kw.c + t
     [] k = "I" -> 2 * Q
     [] k = "F" -> Q \div 2
     \* twins: another leaf of the same kind that the library's == cannot tell from the first (same function code and
     \* keyword names; the difference lives in a closure cell / in an array keyword below the comparison tolerance)
     \* but that computes other values:  P2b = P2 - 4,  P3b = P3 + 2,  PTb = PT - 3
-    [] k = "P2b" -> Pts[PtOf(p)].x + 2 * Pts[PtOf(p)].y - 2 * Q - 4 * Q
-    [] k = "P3b" -> Pts[PtOf(p)].x - Pts[PtOf(p)].y + Pts[PtOf(p)].z + Q + 2 * Q
-    [] k = "PTb" -> Pts[PtOf(p)].x + Pts[PtOf(p)].y + 2 * Pts[PtOf(p)].z - c + t - 3 * Q
+    [] k = "P2b" -> Pts[PtOf(p)].x + 2 * Pts[PtOf(p)].y - 2 * kw.s - 4 * Q
+    [] k = "P3b" -> Pts[PtOf(p)].x - Pts[PtOf(p)].y + Pts[PtOf(p)].z + kw.s + 2 * Q
+    [] k = "PTb" -> Pts[PtOf(p)].x + Pts[PtOf(p)].y + 2 * Pts[PtOf(p)].z - kw.c + t - 3 * Q
     \* tdgl.Constant(value, dimensions): K2 / K3 = Constant(0.5, 2 / 3);  KC2 / KC3 = Constant(0.5 + 1j, 2 / 3), counted in units
     \* of its own (complex) value, in expressions that are linear and homogeneous in it
     [] k \in {"K2", "K3"} -> Q \div 2
@@ -265,7 +270,7 @@ LeafValC(k, p, t, c) ==
     [] k = "CF" -> (CASE CompOf(p) = 1 -> -(Pts[PtOf(p)].y - Q \div 2) [] CompOf(p) = 2 -> Pts[PtOf(p)].x - 3 * (Q \div 4)
                       [] CompOf(p) = 3 -> 0 [] OTHER -> U)
     [] k = "CL" -> (IF CompOf(p) \in {1, 2} THEN Q ELSE U)
-LeafVal(k, p, t) == LeafValC(k, p, t, Q)
+LeafVal(k, p, t) == LeafValC(k, p, t, KW0)
 
 \* the values of ConstantField / CurrentLoop come out of unit conversions and are exact only up to rounding; whether an
 \* exponent computed from them is an integer (which decides the value for a negative base) is then not decidable: a power
@@ -275,7 +280,7 @@ ApplyN(tr, a, b) == IF InexactExp(tr) THEN U ELSE Apply(tr.op, a, b)
 RECURSIVE EvalC(_, _, _, _)
 EvalC(tr, p, t, c) == IF IsLeaf(tr) THEN LeafValC(tr.k, p, t, c)
                       ELSE ApplyN(tr, EvalC(tr.l, p, t, c), EvalC(tr.r, p, t, c))
-Eval(tr, p, t) == EvalC(tr, p, t, Q)
+Eval(tr, p, t) == EvalC(tr, p, t, KW0)
 
 TdKinds == {"PT", "PTb", "RU", "RD"}
 TimeDep(tr) == Kinds(tr) \cap TdKinds # {}
@@ -311,7 +316,7 @@ XOf(a) == IF a \in {"arr", "arrY", "arrZ"} THEN "x1" ELSE a       \* contents wi
 VecArgs == {"vec", "vec2"}
 Bufs == {"b1", "v1", "s1", "tmp"}
 EvalAtC(tr, a, t, c) == [n \in 1..Len(ArgPts(a)) |-> EvalC(tr, ArgPts(a)[n], t, c)]
-EvalAt(tr, a, t) == EvalAtC(tr, a, t, Q)
+EvalAt(tr, a, t) == EvalAtC(tr, a, t, KW0)
 
 -----------------------------------------------------------------------------
 (* MECHANISM                                                               *)
@@ -371,7 +376,7 @@ LeafMechC(k, p, t, c) ==
                               v == ini + ((fin - ini) * (t - Q \div 2)) \div (2 * Q)
                           IN MinI(Max(v, ini), fin)
                      ELSE LeafValC(k, p, t, c)
-LeafMech(k, p, t) == LeafMechC(k, p, t, Q)
+LeafMech(k, p, t) == LeafMechC(k, p, t, KW0)
 RECURSIVE EvalMech(_, _, _, _)
 EvalMech(tr, p, t, c) == IF IsLeaf(tr) THEN LeafMechC(tr.k, p, t, c)
                          ELSE LET lv == EvalMech(tr.l, p, t, c) IN
@@ -390,11 +395,13 @@ KeyK(c) == IF MCacheKeyHashK /\ c = (-1) * Q THEN (-2) * Q ELSE c
 Hit(o, f, a, t) == {e \in o.first : e[1] = f /\ e[2] = a /\ e[3] = KeyT(t) /\ e[4] = KeyK(o.kw)}
 TEff(o, f, a, t) == IF Hit(o, f, a, t) # {} THEN (CHOOSE e \in Hit(o, f, a, t) : TRUE)[5] ELSE t
 CEff(o, f, a, t) == IF Hit(o, f, a, t) # {} THEN (CHOOSE e \in Hit(o, f, a, t) : TRUE)[6] ELSE o.kw
-CallVals(tr, o, f, t) == [a \in Args |-> IF IsLeaf(tr) THEN EvalMechAt(tr, a, t, o.kw)
-                                         ELSE EvalMechAt(tr, a, TEff(o, f, a, t), CEff(o, f, a, t))]
+\* (prescribed: nothing that depends on a static leaf's keyword is remembered across an edit of it - the static leaves'
+\* keyword is the one of the object at the call)
+CallVals(tr, o, f, t) == [a \in Args |-> IF IsLeaf(tr) THEN EvalMechAt(tr, a, t, KW(o.kw, o.ks))
+                                         ELSE EvalMechAt(tr, a, TEff(o, f, a, t), KW(CEff(o, f, a, t), o.ks))]
 
 None == [what |-> "none"]
-Obj0 == [alive |-> FALSE, td |-> "unset", filled |-> {}, first |-> {}, bufs |-> {}, kw |-> Q, eq |-> "unset"]
+Obj0 == [alive |-> FALSE, td |-> "unset", filled |-> {}, first |-> {}, bufs |-> {}, kw |-> Q, ks |-> Q, eq |-> "unset"]
 
 -----------------------------------------------------------------------------
 Init == /\ tree \in T0 /\ pc = "grow" /\ orig = Obj0 /\ copy = Obj0
@@ -446,7 +453,7 @@ CallOn(o, f, t, fill) ==
 Call(f, t, fill) ==
   /\ pc = "built"
   /\ fill \subseteq ParamPaths(tree, "o")
-  /\ last' = [what |-> "call", who |-> "orig", f |-> f, t |-> t, c |-> orig.kw, kind |-> Expect(tree, f), vals |-> CallVals(tree, orig, f, t)]
+  /\ last' = [what |-> "call", who |-> "orig", f |-> f, t |-> t, c |-> KW(orig.kw, orig.ks), kind |-> Expect(tree, f), vals |-> CallVals(tree, orig, f, t)]
   /\ orig' = CallOn(orig, f, t, fill)
   /\ ncalls' = ncalls + 1
   /\ UNCHANGED <<tree, pc, copy, pickled>>
@@ -457,6 +464,15 @@ Retune(c) ==
   /\ orig' = [orig EXCEPT !.kw = c]
   /\ last' = [what |-> "retune", c |-> c]
   /\ UNCHANGED <<tree, pc, copy, pickled, ncalls>>
+
+\* the keyword argument of every static leaf (b of P3 / P3b, a of P2 / P2b) of the built object / of the unpickled copy
+\* set in place: b = s, a = 2 s
+RetuneS(who, s) ==
+  /\ who \in {"orig", "copy"}
+  /\ IF who = "orig" THEN pc = "built" /\ orig' = [orig EXCEPT !.ks = s] /\ UNCHANGED copy
+                     ELSE pc = "copied" /\ copy' = [copy EXCEPT !.ks = s] /\ UNCHANGED orig
+  /\ last' = [what |-> "retune", who |-> who, s |-> s]
+  /\ UNCHANGED <<tree, pc, pickled, ncalls>>
 
 Eq(other) ==
   /\ pc = "built"
@@ -479,7 +495,7 @@ EvalD(tr, pcur, pold, t, root) ==
   IF IsLeaf(tr) THEN (IF tr.k \in TdKinds /\ ~root THEN LeafMech(tr.k, pold, t) ELSE LeafMech(tr.k, pcur, t))
   ELSE ApplyN(tr, EvalD(tr.l, pcur, pold, t, FALSE), EvalD(tr.r, pcur, pold, t, FALSE))
 Deliver(f, t, a, b, fill) ==
-  /\ pc = "built" /\ orig.kw = Q /\ a \in ArrArgs \cup VecArgs \cup IntArgs /\ b \in Bufs
+  /\ pc = "built" /\ orig.kw = Q /\ orig.ks = Q /\ a \in ArrArgs \cup VecArgs \cup IntArgs /\ b \in Bufs
   /\ fill \subseteq ParamPaths(tree, "o")
   /\ LET sa == StaleArg(orig, f, b, t, a) IN
        last' = [what |-> "deliver", f |-> f, t |-> t, a |-> a, b |-> b, kind |-> Expect(tree, f),
@@ -505,7 +521,7 @@ Pickle == /\ pc \in {"built", "cleared", "copied"}
           /\ UNCHANGED <<tree, orig, copy, ncalls>>
 
 Unpickle == /\ pc = "pickled"
-            /\ copy' = [Obj0 EXCEPT !.alive = TRUE, !.td = IF pickled.has THEN pickled.td ELSE "unset", !.kw = orig.kw,
+            /\ copy' = [Obj0 EXCEPT !.alive = TRUE, !.td = IF pickled.has THEN pickled.td ELSE "unset", !.kw = orig.kw, !.ks = orig.ks,
                                     !.eq = B2S(EqMech(tree, tree))]
             /\ pc' = "copied" /\ last' = None /\ ncalls' = 0
             /\ UNCHANGED <<tree, orig, pickled>>
@@ -515,7 +531,7 @@ Unpickle == /\ pc = "pickled"
 CallCopy(f, t, fill) ==
   /\ pc = "copied"
   /\ fill \subseteq ParamPaths(tree, "o")
-  /\ last' = [what |-> "call", who |-> "copy", f |-> f, t |-> t, c |-> copy.kw,
+  /\ last' = [what |-> "call", who |-> "copy", f |-> f, t |-> t, c |-> KW(copy.kw, copy.ks),
               kind |-> IF pickled.has \/ ~HasCompositeOperand(tree) THEN Expect(tree, f) ELSE "broken",
               vals |-> CallVals(tree, copy, f, t)]
   /\ copy' = CallOn(copy, f, t, fill)
@@ -540,22 +556,30 @@ Solve == /\ pc \in {"built", "cleared", "copied"}
 
 FillOf(f) == IF Expect(tree, f) = "val" /\ FormHasT(f) THEN CachingPaths(tree, "o") ELSE {}
 CallTimes(f) == IF FormHasT(f) THEN Times ELSE {0}
+\* the argument form in which the expression answers
+ValForm(f) == Expect(tree, f) = "val" /\ f = (IF TimeDep(tree) THEN "F3T" ELSE IF DimsFit(tree, "F3") THEN "F3" ELSE "F2")
 \* exploration order of the model-checking runs (the trace specification uses the actions without it)
 MCall == pc = "built" /\ \E f \in Forms, t \in Times :
            /\ t \in CallTimes(f) /\ ncalls < 2 /\ last.what \in {"none", "call", "retune"}
            \* second call: same form, other time (every ordered pair of distinct times), where the form answers
-           /\ (last.what = "call" => (last.f = f /\ FormHasT(f) /\ last.t # t /\ Expect(tree, f) # "fail" /\ orig.kw = Q))
+           /\ (last.what = "call" => (last.f = f /\ FormHasT(f) /\ last.t # t /\ Expect(tree, f) # "fail" /\ orig.kw = Q /\ orig.ks = Q))
            \* after an edit of the keyword argument: the form that answers, at one time (the same before and after the edit)
-           /\ (last.what = "retune" => (f = "F3T" /\ t = Q))
+           /\ (last.what = "retune" => (ValForm(f) /\ t = (IF FormHasT(f) THEN Q ELSE 0)))
            /\ Call(f, t, FillOf(f))
 \* the keyword argument of the time-dependent leaves edited before the first call and between two calls at the same time
-MRetune == /\ pc = "built" /\ TimeDep(tree) /\ ~HasShipped(tree) /\ Expect(tree, "F3T") = "val"
+MRetune == /\ pc = "built" /\ orig.ks = Q /\ TimeDep(tree) /\ ~HasShipped(tree) /\ Expect(tree, "F3T") = "val"
            /\ \/ last.what = "none" /\ ncalls = 0
               \/ last.what = "call" /\ ncalls = 1 /\ last.f = "F3T" /\ last.t = Q
            /\ \E c \in KwVals \ {orig.kw} : Retune(c)
-MClear == orig.kw = Q /\ Clear
+\* the keyword argument of the static leaves, likewise (one edit; time-dependent expressions and static ones, in the form
+\* that answers)
+MRetuneS == /\ pc = "built" /\ orig.kw = Q /\ orig.ks = Q /\ ~HasShipped(tree) /\ Kinds(tree) \cap StaticKinds # {}
+            /\ \E f \in Forms : /\ ValForm(f)
+                                 /\ \/ last.what = "none" /\ ncalls = 0
+                                    \/ last.what = "call" /\ ncalls = 1 /\ last.f = f /\ last.t = (IF FormHasT(f) THEN Q ELSE 0)
+            /\ \E s \in KwVals \ {orig.ks} : RetuneS("orig", s)
+MClear == orig.kw = Q /\ orig.ks = Q /\ Clear
 \* at most two deliveries, into the same owned buffer, at one time, in the argument form the expression answers
-ValForm(f) == Expect(tree, f) = "val" /\ f = (IF TimeDep(tree) THEN "F3T" ELSE IF DimsFit(tree, "F3") THEN "F3" ELSE "F2")
 \* an expression on shipped leaves: the whole (3, 3) array at each time
 MShipDeliver == pc = "built" /\ HasShipped(tree) /\ ncalls < 1 /\ last.what = "none"
                 /\ \E f \in Forms, t \in Times : ValForm(f) /\ t \in CallTimes(f) /\ Deliver(f, t, VecArg(tree), "tmp", {})
@@ -571,14 +595,14 @@ MEq == last.what = "none" /\ \E other \in Variants(tree) : Eq(other)
 MPickle == pc = "cleared" /\ Pickle
 MClearCopy == last.what # "clear" /\ ClearCopy
 MSolve == pc = "copied" /\ Solve
-Next == Grow \/ Twin \/ Ship \/ Konst \/ Build \/ MShipDeliver \/ MIntDeliver \/ MDeliver \/ MCall \/ MRetune \/ MEq \/ MClear \/ MPickle \/ Unpickle \/ MCallCopy \/ MClearCopy \/ MSolve
+Next == Grow \/ Twin \/ Ship \/ Konst \/ Build \/ MShipDeliver \/ MIntDeliver \/ MDeliver \/ MCall \/ MRetune \/ MRetuneS \/ MEq \/ MClear \/ MPickle \/ Unpickle \/ MCallCopy \/ MClearCopy \/ MSolve
 
 Spec == Init /\ [][Next]_vars
 
 -----------------------------------------------------------------------------
 (* PROPERTY clauses (C16; PickleRoundTrip also C14)                        *)
 TypeOK == /\ pc \in {"grow", "twin", "ship", "konst", "built", "failed", "cleared", "pickled", "copied", "solved"}
-          /\ Level(tree) <= MaxLevel /\ ncalls \in 0..2 /\ orig.kw \in KwVals /\ copy.kw \in KwVals
+          /\ Level(tree) <= MaxLevel /\ ncalls \in 0..2 /\ orig.kw \in KwVals /\ copy.kw \in KwVals /\ orig.ks \in KwVals /\ copy.ks \in KwVals
 
 \* a call that must answer answers the pointwise combination of its operands' values (at the time of the call, with the
 \* operands' keyword arguments as they are at the call); a call that must fail does not answer (kinds are part of the result)
